@@ -228,7 +228,7 @@ fn c07_values_levels_agree() {
     core::mem::forget(b);
 }
 
-/// quick tier (2): the conversion formula at concrete (scale, offset) points, all 256 raw values
+/// quick tier: the conversion formula at concrete (scale, offset) points at BOTH levels, all 256 raw values
 #[kani::proof]
 #[kani::unwind(4)]
 fn c07_values_formula_points() {
@@ -245,17 +245,24 @@ fn c07_values_formula_points() {
     let raw: u8 = kani::any();
     b.encoded_data[0] = raw;
     let d = b.decoded_values();
-    assert!(d.len() == 1);
+    let mv = b.moment_data().values();
+    assert!(d.len() == 1 && mv.len() == 1);
     if scale != 0.0 {
         match raw {
-            0 => assert!(d[0] == ScaledMomentValue::BelowThreshold),
-            1 => assert!(d[0] == ScaledMomentValue::RangeFolded),
-            _ => match d[0] { ScaledMomentValue::Value(v) => assert!(v.to_bits() == ((raw as f32 - offset) / scale).to_bits()), _ => assert!(false) },
+            0 => assert!(d[0] == ScaledMomentValue::BelowThreshold && mv[0] == MomentValue::BelowThreshold),
+            1 => assert!(d[0] == ScaledMomentValue::RangeFolded && mv[0] == MomentValue::RangeFolded),
+            _ => {
+                let want = ((raw as f32 - offset) / scale).to_bits();
+                match d[0] { ScaledMomentValue::Value(v) => assert!(v.to_bits() == want), _ => assert!(false) }
+                match mv[0] { MomentValue::Value(v) => assert!(v.to_bits() == want), _ => assert!(false) }
+            }
         }
     } else if raw >= 2 {
         match d[0] { ScaledMomentValue::Value(v) => assert!(v == raw as f32), _ => assert!(false) }
+        match mv[0] { MomentValue::Value(v) => assert!(v == raw as f32), _ => assert!(false) }
     }
     core::mem::forget(d);
+    core::mem::forget(mv);
     core::mem::forget(b);
 }
 
